@@ -146,6 +146,7 @@ type Sim struct {
 	rnet       *simrt.Rand
 	rburst     *simrt.Rand
 	deepYields int
+	longYields int
 	rfault     *simrt.Rand
 	ryield     *simrt.Rand
 	nodes      []*simNode
@@ -341,14 +342,15 @@ func newSim(cfg W3Cfg, out *Outcome, wantLog bool) *Sim {
 		if yp > 0 || deep > 0 {
 			// a function of the seed, the goroutine's label and its own draw count: no shared stream
 			z := mix64(yseed ^ runtimeVerifGetTag()*0x9e3779b97f4a7c15 ^ runtimeVerifNextCount()<<20 ^ uint64(site))
-			if deep > 0 && int((z>>16)%1024) < deep {
+			if deep > 0 && int((z>>16)%1024) < deep && s.deepYields < 1500 {
 				// everybody else runs until it blocks (whole chains of hand-offs: a raft message
 				// received, persisted and applied), then this goroutine goes on
 				s.deepYields++
 				d := time.Nanosecond
-				if (z>>30)%2 == 0 {
+				if (z>>30)%4 == 0 && s.longYields < 24 { // (bounded: simulated time must stay dominated by the system's own timers)
 					// ... or is not scheduled for a few milliseconds, during which the network goes on delivering
 					d = time.Duration(500+(z>>32)%3500) * time.Microsecond
+					s.longYields++
 				}
 				time.Sleep(d)
 			} else if int(z%256) < yp {
